@@ -10,7 +10,8 @@ tokens: X<τ> set_expiry (τ = N | int) · A<T|F><v> reply dispatched now · S<d
 S<delay>:O<dur> peer message readable `delay` ticks from now · V conn.serve(0) · C<c> add_callback ·
 r ready · e error · x expired · v value · w wait · T<d> tick · Y<τ> sync_request with configured
 timeout τ (fresh result) · Z<τ> timed(proxy, τ)(...) (fresh result) · Q<τ> async_request(timeout=τ) ·
-P<τ> conn.poll_all(τ) by unrelated activity ·
+P<τ> conn.poll_all(τ) by unrelated activity · G<c>:<T|F><v> add_callback(c) with the reply delivered by another
+thread between its test of `_is_ready` and its append ·
 W<τ> make a `timed(proxy, τ)` wrapper (no request yet) · K call that wrapper (fresh result) ·
 D the application drops its own reference to the result (not part of the model's state: the identity on `World`;
 the connection's registry entry `live` is what keeps the request answerable).
@@ -26,6 +27,7 @@ inductive AOp where
   | areq (τ : Option Int)
   | sendReply (d : Nat) (next : Bool) (e : Bool) (v : Nat)
   | pollAll (τ : Option Int)
+  | race (c : Nat) (e : Bool) (v : Nat)
   | mkTimed (τ : Option Int)
   | callTimed
   | dropRef
@@ -86,6 +88,11 @@ def parseAOp (tok : String) : Option AOp :=
   | ['V'] => some (.ev .serve1)
   | 'U' :: cs => (parseTau cs).map (fun t => .ev (.serveT t))
   | 'P' :: cs => (parseTau cs).map .pollAll
+  | 'G' :: cs => match cs.span (· ≠ ':') with
+    | (c, _ :: b :: vs) => match parseNatChars c, parseBoolC b, parseNatChars vs with
+      | some c, some e, some v => some (.race c e v)
+      | _, _, _ => none
+    | _ => none
   | 'C' :: cs => (parseNatChars cs).map (fun c => .ev (.addCallback c))
   | ['r'] => some (.ev .qReady)
   | ['e'] => some (.ev .qError)
@@ -141,6 +148,7 @@ def pollAllLoop : Nat → World → Timeout → World × Obs
 /-- the wrapper made by the last `W` token travels next to the world; `K` without one is rejected -/
 def applyAOp (w : World) (tw : Option Timed) : AOp → Option (World × Option Timed × Obs)
   | .ev e => some ((step w e).1, tw, (step w e).2)
+  | .race c e v => some (addCallbackRace Gen.Async.addCallbackAtomic w c e v, tw, .unit)
   | .pollAll τ =>
     let r := pollAllLoop (w.chan.length + 2) w (Timeout.make w.now τ)
     some (r.1, tw, r.2)
@@ -229,7 +237,7 @@ def asyncOp : List String → String
     match ex.toList, parseNatChars now.toList, e.toList, parseNatChars v.toList, cbs.mapM parseCb with
     | [x], some now, [b], some v, some cbs =>
       match parseBoolC x, parseBoolC b with
-      | some x, some b => showCallOut (callR Gen.Async.callbacksAllRun x now cbs b v)
+      | some x, some b => showCallOut (callR Gen.Async.callbacksAllRun Gen.Async.callbackErrorPropagates x now cbs b v)
       | _, _ => "bad-op"
     | _, _, _, _, _ => "bad-op"
   | "run" :: t0 :: toks =>
